@@ -149,13 +149,36 @@ func (x *runner) handle(idx int, c Case, res *Result) {
 	}
 }
 
+// shapeIndependent lists the operations (and the follow-up call) whose recursion over a cyclic container does not
+// depend on the container's shape: they get one signature for all shapes, except the shapes named in the value,
+// on which the operation is known not to recurse (a crash there is something new and gets its own signature).
+// Every other operation (freeze, len, ...) and every other follow-up call is keyed by operation AND shape: a
+// signature must never stand for a shape on which the unchanged tree does not crash.
+var shapeIndependent = map[string][]string{
+	"op=string": nil, "op=copy": nil, "op=format-v": nil, "op=format-s": nil, "op=format-d": nil, "op=str-concat": nil, "op=map-key": nil,
+	"op=eq-self": {"cyclic-error"}, "op=neq-self": {"cyclic-error"}, "op=eq-same-shape": {"cyclic-error"}, "op=eq-in-array": {"cyclic-error"},
+	"call=clone": nil,
+}
+
+func cyclicKey(p *Prog, call string) string {
+	k := "op=" + p.SigOp
+	if call != "" && call != "run1" {
+		k = "call=" + call
+	}
+	if except, ok := shapeIndependent[k]; ok {
+		for _, sh := range except {
+			if sh == p.SigArg {
+				return k + "/arg=" + p.SigArg
+			}
+		}
+		return k
+	}
+	return k + "/arg=" + p.SigArg
+}
+
 func sigKey(p *Prog, call string) string {
 	if p.Group == "cyclic" {
-		// one signature per crashing operation / follow-up call, whatever the shape of the cyclic container
-		if call == "" || call == "run1" {
-			return "op=" + p.SigOp
-		}
-		return "call=" + call
+		return cyclicKey(p, call)
 	}
 	if p.SigOp != "" {
 		if call == "" || call == "run1" {
@@ -253,17 +276,19 @@ func (x *runner) investigate(idx int, c Case, first attempt, vmemKiB int) {
 	}
 	isRun := func(call string) bool { return call == "" || call == "run1" || call == "run2" || call == "clone-run" }
 	runaway := func(call string) (sig, what string) {
-		op := p.Key
+		what = "Compiled." + callName(call) + " with context.Background() neither returns nor fails for a script that has no loop or recursion of its own: " +
+			"it runs (allocating) until the watchdog (20 s in the batch, 60 s alone) or the 4 GiB address-space limit (fatal error: out of memory) stops the host"
 		if p.Group == "cyclic" {
-			op = "op=" + p.SigOp
-		} else if p.SigOp != "" {
+			return "hang/" + cyclicKey(p, call), what
+		}
+		op := p.Key
+		if p.SigOp != "" {
 			op = "op=" + p.SigOp + "/arg=" + p.SigArg
 		}
 		if call != "" && call != "run1" {
 			op = "call=" + call + "/" + op
 		}
-		return "hang/" + op, "Compiled." + callName(call) + " with context.Background() neither returns nor fails for a script that has no loop or recursion of its own: " +
-			"it runs (allocating) until the watchdog (20 s in the batch, 60 s alone) or the 4 GiB address-space limit (fatal error: out of memory) stops the host"
+		return "hang/" + op, what
 	}
 	_ = hangs
 	if lastDeath != nil && lastDeath.class == "fatal-out-of-memory" && isRun(lastDeath.call) && !p.NonTerm {
@@ -605,7 +630,7 @@ loop:
 	r.Set("atoms", len(allAtoms()))
 	if x.thorough {
 		r.Set("value_alphabets", "all of val.All() for every value-level family")
-		r.Set("cyclic_shapes", "all 10 shapes: main and function placement, 4x8 sub-matrix in all 7 placements")
+		r.Set("cyclic_shapes", "all 11 shapes: main and function placement, 4x8 sub-matrix in all 7 placements")
 	} else {
 		r.Set("quick_pair_alphabet", quickPairAlphabet)
 		r.Set("quick_builtin_alphabet", quickBuiltinAlphabet)
@@ -625,10 +650,10 @@ loop:
 		Evaluations: x.states,
 		Nontrivial:  x.nontrivial,
 		Rule: "hostile family: every atom of the hostile alphabet (ill-typed operators, integer edge arithmetic, shifts, char/time overflow, bytes/range misuse and counter overflow, " +
-			"container mutation during iteration, 10 cyclic container shapes x 29 operations, runaway recursion, known non-terminating loops under a 2 s deadline, spread/call misuse, " +
+			"container mutation during iteration, 11 cyclic container shapes x 29 operations, runaway recursion, known non-terminating loops under a 2 s deadline, spread/call misuse, " +
 			"every builtin x 0..5 arguments, failing/panicking/nil-returning host functions, host objects returning nil in every operator position, indexing/slicing/assignment of 10 receiver kinds x 13 index values, " +
 			"splice/format/selector misuse, operand-stack/frame/locals/globals limits by generated text, acyclic nesting 300..10^5, string/bytes limit) x 7 placements " +
-			"(main, function, closure, source module, loop, builtin argument, for-in header; crash-prone groups: quick = 3 of the 10 cyclic shapes x all operations in main placement, thorough = all shapes in main and function placement plus a 4x8 sub-matrix in all placements; non-terminating atoms: 3 placements in quick) " +
+			"(main, function, closure, source module, loop, builtin argument, for-in header; crash-prone groups: quick = 4 of the 11 cyclic shapes (array, map, mutual pair, immutable array) x all operations in main placement, thorough = all shapes in main and function placement plus a 4x8 sub-matrix in all placements; non-terminating atoms: 3 placements in quick) " +
 			"[thorough: + pairs first-atom-in-function ; second-atom-in-main]; value family (thorough: V = all of val.All(); quick: the 30-value and 20-value sub-alphabets named in the evidence): every binary operator x every ordered pair of V, every unary/ternary/selector/index/index-assignment/slice shape over V, " +
 			"every builtin x every argument tuple of arity 0..2 over V (arity 3..4 over sub-alphabets for splice/range/append/format) as host inputs; " +
 			"state = one (program, inputs) case; transition = one API call executed in a worker (Compile, RunContext, Get, GetAll, IsDefined, Set, RunContext, Clone, RunContext); " +
